@@ -36,12 +36,16 @@ def tok(t, pos=True):
     return ('tok', _s(t.type), _s(t.value))
 
 
-def canon(x, pos=False, meta=False):
-    """Tree -> ('tree', label, children[, meta]); Token -> ('tok', type, value[, positions]); None -> None."""
+def canon(x, pos=False, meta=False, _path=()):
+    """Tree -> ('tree', label, children[, meta]); Token -> ('tok', type, value[, positions]); None -> None.
+    A tree that contains itself (seen with a corrupted child list) is cut at the repetition: ('cycle', label)."""
     if x is None:
         return None
     if is_tree(x):
-        ch = tuple(canon(c, pos, meta) for c in x.children)
+        if id(x) in _path or len(_path) > 200:
+            return ('cycle', _s(x.data))
+        _path = _path + (id(x),)
+        ch = tuple(canon(c, pos, meta, _path) for c in x.children)
         if meta:
             return ('tree', _s(x.data), ch, meta_of(x))
         return ('tree', _s(x.data), ch)
@@ -50,7 +54,7 @@ def canon(x, pos=False, meta=False):
     if isinstance(x, (str, bytes)):
         return ('str', _s(x))
     if isinstance(x, (list, tuple)):
-        return ('seq',) + tuple(canon(c, pos, meta) for c in x)
+        return ('seq',) + tuple(canon(c, pos, meta, _path) for c in x)
     if isinstance(x, (int, float, bool)):
         return ('val', x)
     return ('obj', repr(x))
